@@ -896,9 +896,17 @@ class TeX(object):
             if t.catcode != Token.CC_ESCAPE and \
                (t == begin or str(t) == str(begin)):
                 level = 1
+                bracelevel = 0
                 for t in tokens:
                     source.append(t)
-                    if t.catcode != Token.CC_ESCAPE and \
+                    # The delimiters do not count inside of a {...} group
+                    if t.catcode == Token.CC_BGROUP:
+                        bracelevel += 1
+                    elif t.catcode == Token.CC_EGROUP and bracelevel:
+                        bracelevel -= 1
+                    if bracelevel:
+                        toks.append(t)
+                    elif t.catcode != Token.CC_ESCAPE and \
                        (t == begin or str(t) == str(begin)):
                         toks.append(t)
                         level += 1
